@@ -337,9 +337,9 @@ class VProbeEvent(EventABC):
         self._r("market_after", market=market.market_id)
         tr = T()
         if tr.options.get("probe_series"):
-            # the values of the current time are final once the step is over: remember them (inclusive snapshot)
-            t = market.get_time()
-            tr.prev_series[market.market_id] = {g: getattr(market, g)(range(t + 1)) for g in GETN}
+            # the values of the current time are final once the step is over: compare the past with the last snapshot,
+            # then remember everything up to and including now
+            compare_with_previous_snapshot(tr, market, market.get_time(), inclusive=True)
 
 
 def probe_series(tr: Trace, market) -> None:
@@ -358,15 +358,22 @@ def probe_series(tr: Trace, market) -> None:
                 errs.append(("future_refused_kind", f"{g}({t}+{dt}) raised {type(e).__name__} instead of refusing with AssertionError"))
             else:
                 errs.append(("future_allowed", f"{g}({t}+{dt}) at time {t} returned {v!r}"))
+    k = dts[1]
+    shapes = [[0, t + k], [t + k, 0], [t + 1, t], [t, t + 1, max(t - 1, 0)], range(t + k, -1, -1), iter([t + 1]), (x for x in (t + k, t))]
     for g in GETN:
+        times_arg = shapes[rnd.randrange(len(shapes))] if g != GETN[0] else shapes[1]
+        desc = repr(times_arg) if not hasattr(times_arg, "__next__") else "iterator with a future time"
+        if hasattr(times_arg, "__next__"):
+            # one-shot iterators are consumed by the probe: rebuild per call
+            times_arg = iter([t + 1, t]) if rnd.random() < 0.5 else (x for x in (t, t + k))
         try:
-            v = getattr(market, g)([0, t + dts[1]])
+            v = getattr(market, g)(times_arg)
         except AssertionError:
             tr.count("future_refused")
         except Exception as e:  # noqa: BLE001
-            errs.append(("future_refused_kind", f"{g}([0,{t + dts[1]}]) raised {type(e).__name__}"))
+            errs.append(("future_refused_kind", f"{g}({desc}) raised {type(e).__name__}"))
         else:
-            errs.append(("future_allowed", f"{g}([0, {t + dts[1]}]) at time {t} returned a value"))
+            errs.append(("future_allowed", f"{g}({desc}) at time {t} was answered with {v!r}"))
     if isinstance(market, IndexMarket):
         for g in ("get_index", "get_market_index", "get_fundamental_index", "compute_market_index"):
             try:
@@ -377,7 +384,13 @@ def probe_series(tr: Trace, market) -> None:
                 errs.append(("future_refused_kind", f"{g}({t}+1) raised {type(e).__name__}"))
             else:
                 errs.append(("future_allowed", f"index {g}({t + 1}) at time {t}"))
-    cur = {g: getattr(market, g)(range(t)) for g in GETN}
+    compare_with_previous_snapshot(tr, market, t, inclusive=False)
+
+
+def compare_with_previous_snapshot(tr: Trace, market, t: int, inclusive: bool) -> None:
+    """values recorded for times the previous snapshot already covered must be unchanged; then take a new snapshot
+    (of times < t in the before-step hook, of times <= t in the after-step hook, when the step's values are final)."""
+    cur = {g: getattr(market, g)(range(t + 1 if inclusive else t)) for g in GETN}
     old = tr.prev_series.get(market.market_id)
     if old is not None:
         for g in GETN:
@@ -385,9 +398,10 @@ def probe_series(tr: Trace, market) -> None:
             c = cur[g][: len(o)]
             for i, (a, b) in enumerate(zip(o, c)):
                 if not (a == b or (a != a and b != b)):
-                    errs.append(("history_changed", f"{g}[{i}] was {a!r}, is {b!r} at time {t} (market {market.market_id})"))
+                    tr.errs.append(("history_changed", f"{g}[{i}] was {a!r}, is {b!r} at time {t} (market {market.market_id})"))
                     break
-    tr.prev_series[market.market_id] = cur
+    if old is None or inclusive or len(cur[GETN[0]]) >= len(old[GETN[0]]):
+        tr.prev_series[market.market_id] = cur
 
 
 class VSnapEvent(VProbeEvent):
